@@ -157,9 +157,95 @@ TEMPLATES = {
         ('call', b"badge", [S(b"k0")], [], []),
         tag(b"q", [buf(fcall(b"who")), buf(fcall(b"meet")), buf(fcall(b"alive"))]),
     ],
+    # ---- templates that go through the engine's RARELY USED SHARED HELPERS: members that are not there
+    # (optional members, the name-folding fallbacks of Map.Member: Name for name, ID/URL/API spellings),
+    # string helpers, number formatting.  Many renders at once are inside them in the 'rare' storms.
+    # optional members of list items, most of them absent
+    "opt/list": [
+        tag(b"ul", [('each', b"item", b"i", I(b"items"), [
+            tag(b"li", [buf(('dot', I(b"item"), b"label")),
+                        ('cond', ('dot', I(b"item"), b"badge"), [tag(b"span", [buf(('dot', I(b"item"), b"badge"))], inline=True)], None),
+                        ('cond', ('dot', I(b"item"), b"note"), [tag(b"em", [buf(('dot', I(b"item"), b"note"))], inline=True)],
+                         ('block', [text(b"-")])),
+                        buf(('dot', ('dot', I(b"item"), b"meta"), b"deep"))],
+                attrs=[(b"class", ('dot', I(b"item"), b"cls"), True), (b"data-k", ('dot', I(b"item"), b"key"), True)]),
+        ])]),
+        tag(b"p", [buf(I(b"title")), text(b"/"), buf(I(b"nosuchvar_member_of_data"))]),
+    ],
+    # a mixin that looks at attributes it may not have been given
+    "opt/mixin": [
+        ('mixin', b"btn", [b"label"], [
+            tag(b"a", [buf(I(b"label")),
+                       ('cond', ('dot', I(b"attributes"), b"title"), [tag(b"sup", [buf(('dot', I(b"attributes"), b"title"))], inline=True)], None)],
+                attrs=[(b"class", ('bin', '||', ('dot', I(b"attributes"), b"class"), S(b"plain")), True),
+                       (b"href", ('bin', '||', ('dot', I(b"attributes"), b"href"), S(b"#")), True)]),
+            ('mixinblock',)]),
+        ('call', b"btn", [I(b"a")], [(b"class", S(b"big"), True), (b"title", I(b"t"), True)], []),
+        ('call', b"btn", [I(b"b")], [], [tag(b"small", [buf(('dot', I(b"opts"), b"hint"))], inline=True)]),
+        ('each', b"x", None, I(b"more"), [
+            ('call', b"btn", [('dot', I(b"x"), b"name")], [(b"href", ('dot', I(b"x"), b"link"), True)], [])]),
+    ],
+    # names that are found only by folding: Name for name, userID for userid, URL for url, ...
+    "opt/fold": [
+        ('each', b"o", None, I(b"objs"), [
+            tag(b"p", [buf(('dot', I(b"o"), b"name")), text(b"|"), buf(('dot', I(b"o"), b"id")), text(b"|"),
+                       buf(('dot', I(b"o"), b"url")), text(b"|"), buf(('dot', I(b"o"), b"userid")), text(b"|"),
+                       buf(('dot', I(b"o"), b"apikey")), text(b"|"), buf(('dot', I(b"o"), b"firstName")), text(b"|"),
+                       buf(('dot', I(b"o"), b"nothing"))]),
+        ]),
+    ],
+    # string helpers and number formatting
+    "str/fmt": [
+        tag(b"p", [buf(call(I(b"s"), b"toUpperCase")), text(b"|"), buf(call(I(b"s"), b"toLowerCase")), text(b"|"),
+                   buf(call(I(b"s"), b"charAt", N(0))), text(b"|"), buf(call(I(b"s"), b"indexOf", S(b"a"))), text(b"|"),
+                   buf(call(I(b"s"), b"slice", N(1))), text(b"|"), buf(call(I(b"s"), b"replace", S(b"a"), S(b"<o>"))), text(b"|"),
+                   buf(('dot', I(b"s"), b"length"))]),
+        tag(b"p", [buf(call(call(I(b"csv"), b"split", S(b",")), b"join", S(b" + "))), text(b"|"),
+                   buf(('dot', call(I(b"csv"), b"split", S(b",")), b"length")), text(b"|"), buf(fcall(b"stripTags", I(b"html")))]),
+        tag(b"p", [buf(('bin', '/', I(b"n"), N(7))), text(b"|"), buf(('bin', '*', I(b"n"), ('numf', b"1.5"))), text(b"|"),
+                   buf(('bin', '/', I(b"n"), N(1000000))), text(b"|"), buf(('bin', '*', I(b"n"), N(123456789))), text(b"|"),
+                   buf(call(I(b"Math"), b"round", ('bin', '/', I(b"n"), N(3)))), text(b"|"), buf(fcall(b"parseInt", I(b"digits"))),
+                   text(b"|"), buf(('bin', '+', S(b"#"), I(b"n")))]),
+    ],
+    # ---- STRUCT data (harness/c08data.go): Go types the engine has not seen before the round
+    # one record of a reflect.StructOf type, few or very many fields
+    "rec/one": [
+        tag(b"p", [buf(('dot', I(b"rec"), b"name")), text(b"/"), buf(('bin', '*', ('dot', I(b"rec"), b"qty"), N(2))), text(b"/"),
+                   buf(('dot', I(b"rec"), b"last"))]),
+        tag(b"p", [buf(('dot', I(b"rec"), b"p0")), text(b","), buf(('dot', I(b"rec"), b"p6")), text(b","),
+                   buf(('dot', I(b"rec"), b"p59")), text(b","), buf(('dot', I(b"rec"), b"p399"))]),
+        tag(b"ul", [('each', b"t", None, ('dot', I(b"rec"), b"tags"), [tag(b"li", [buf(I(b"t"))])])]),
+        ('cond', ('dot', I(b"rec"), b"inner"), [tag(b"b", [buf(('dot', ('dot', I(b"rec"), b"inner"), b"title"))])],
+         ('block', [text(b"no inner")])),
+        ('cond', ('dot', I(b"rec"), b"badge"), [tag(b"span", [buf(('dot', I(b"rec"), b"badge"))])], None),
+        tag(b"q", [buf(('dot', I(b"rec"), b"tail"))]),
+    ],
+    # a list of records of one struct type
+    "rec/list": [
+        tag(b"ol", [('each', b"it", b"i", I(b"items"), [
+            tag(b"li", [buf(I(b"i")), text(b":"), buf(('dot', I(b"it"), b"label")), text(b" "), buf(('dot', I(b"it"), b"price")),
+                        ('cond', ('dot', I(b"it"), b"badge"), [tag(b"span", [buf(('dot', I(b"it"), b"badge"))], inline=True)], None),
+                        text(b" "), buf(('dot', I(b"it"), b"tail"))]),
+        ])]),
+        tag(b"p", [buf(('dot', I(b"items"), b"length")), text(b" for "), buf(I(b"user"))]),
+    ],
+    # values of named Go types with methods (one instance of a generic type per round)
+    "rec/named": [
+        tag(b"p", [buf(('dot', I(b"rec"), b"name")), text(b"|"), buf(call(I(b"rec"), b"label")), text(b"|"),
+                   buf(call(I(b"rec"), b"double")), text(b"|"), buf(call(I(b"rec"), b"hasTag", I(b"want"))), text(b"|"),
+                   buf(call(I(b"rec"), b"tagLine")), text(b"|"), buf(('dot', I(b"rec"), b"productID")), text(b"|"),
+                   buf(('dot', I(b"rec"), b"productid")), text(b"|"), buf(('dot', I(b"rec"), b"uRL")), text(b"|"),
+                   buf(('dot', I(b"rec"), b"missing"))]),
+        ('cond', ('dot', I(b"rec"), b"inner"), [tag(b"b", [buf(('dot', ('dot', I(b"rec"), b"inner"), b"title"))])],
+         ('block', [text(b"no inner")])),
+        tag(b"ul", [('each', b"it", None, I(b"list"), [
+            tag(b"li", [buf(call(I(b"it"), b"label")), text(b" "), buf(('dot', ('dot', I(b"it"), b"tags"), b"length"))])])]),
+    ],
 }
 TNAMES = sorted(TEMPLATES)
 CTX_TNAMES = [t for t in TNAMES if t.startswith("ctx/")]
+RARE_TNAMES = [t for t in TNAMES if t.startswith(("opt/", "str/"))]
+REC_TNAMES = [t for t in TNAMES if t.startswith("rec/")]
 FILES = {hx(k): hx(tmpl.pug_file(TEMPLATES[k])) for k in TNAMES}
 
 WORDS = [b"ab", b"x", b"Hello", b"<b>&\"'", b"", b"z9", b"\xc3\xa9t\xc3\xa9", b"a&b", b"</script>", b"k1 k2"]
@@ -194,7 +280,117 @@ def gen_data(rng, t):
         return {b"items": ints(1, 8)}
     if t == "ctx/mixin":
         return {b"keys": [rng.choice(CTX_KEYS) for _ in range(rng.randint(0, 5))], b"n": rng.randint(0, 50)}
+    if t == "opt/list":
+        def item(k):
+            it = {b"label": w() + b"-%d" % k}
+            if rng.random() < 0.2:
+                it[b"badge"] = w()
+            if rng.random() < 0.15:
+                it[b"note"] = w()
+            if rng.random() < 0.3:
+                it[b"cls"] = rng.choice([b"hot", b"new", b"a b"])
+            if rng.random() < 0.1:
+                it[b"meta"] = {b"deep": w()}
+            return it
+        return {b"items": [item(k) for k in range(rng.randint(1, 12))], b"title": w()}
+    if t == "opt/mixin":
+        d = {b"a": w(), b"b": w(), b"more": [{b"name": w()} if rng.random() < 0.6 else {b"name": w(), b"link": b"/l/" + w()}
+                                               for _ in range(rng.randint(0, 5))]}
+        if rng.random() < 0.4:
+            d[b"t"] = w()
+        if rng.random() < 0.3:
+            d[b"opts"] = {b"hint": w()} if rng.random() < 0.5 else {}
+        return d
+    if t == "opt/fold":
+        def obj():
+            o = {}
+            for js, spellings in FOLD_SPELLINGS:
+                if rng.random() < 0.55:
+                    o[rng.choice(spellings)] = w()
+            return o
+        return {b"objs": [obj() for _ in range(rng.randint(1, 6))]}
+    if t == "str/fmt":
+        return {b"s": w() + rng.choice([b"", b"banana", b"A a"]), b"csv": b",".join(w() for _ in range(rng.randint(1, 5))),
+                b"html": b"<p>" + w() + b"</p><br/>" + w(), b"n": rng.randint(-999, 99999),
+                b"digits": rng.choice([b"42", b"007", b"-3", b"12px", b"x"])}
+    if t == "rec/one":
+        return {b"rec": gen_sof(rng, rng.randrange(4))}
+    if t == "rec/list":
+        fam = rng.randrange(4)
+        pad, pad_at = rng.choice(PADS), rng.randint(0, 4)
+        def it(k):
+            f = [(b"Label", w() + b"-%d" % k), (b"Price", rng.randint(0, 9999)), (b"Tail", b"t%d" % k)]
+            if fam % 2:
+                f.insert(2, (b"Badge", w() if rng.random() < 0.3 else b""))
+            return Sof(f, pad, min(pad_at, len(f)), fam, False)
+        return {b"items": [it(k) for k in range(rng.randint(1, 6))], b"user": w()}
+    if t == "rec/named":
+        def named(depth=0):
+            return Named(rng.randrange(48), rng.random() < 0.3, w(), rng.randint(0, 500),
+                         [rng.choice([b"x", b"y", b"z", b"<t>"]) for _ in range(rng.randint(0, 3))],
+                         b"/u/" + w(), b"P-%d" % rng.randint(0, 999),
+                         (None if rng.random() < 0.5 else {b"title": w()} if rng.random() < 0.5 else gen_sof(rng, 5)))
+        idx = rng.randrange(48)
+        rec = named()
+        lst = [named() for _ in range(rng.randint(0, 4))]
+        for x in [rec] + lst:
+            if rng.random() < 0.7:
+                x.idx = idx       # mostly ONE named type per job: every goroutine of the round converts it
+        return {b"rec": rec, b"list": lst, b"want": rng.choice([b"x", b"y", b"q"])}
     return {b"x": 1}   # a template that is not loaded: not_found
+
+
+# the JS spelling a template uses and spellings of the key that Map.Member's fallbacks find (or do not)
+FOLD_SPELLINGS = [
+    (b"name", [b"name", b"Name", b"NAME"]),
+    (b"id", [b"id", b"ID", b"Id"]),
+    (b"url", [b"url", b"URL", b"Url"]),
+    (b"userid", [b"userid", b"userID", b"UserID", b"Userid"]),
+    (b"apikey", [b"apikey", b"APIkey", b"aPIkey", b"Apikey"]),
+    (b"firstName", [b"firstName", b"FirstName", b"firstname"]),
+]
+PADS = [0, 0, 7, 60, 60, 400, 400]
+
+
+class Sof:
+    """a value of a reflect.StructOf type (harness/c08data.go)"""
+    def __init__(self, fields, pad, pad_at, fam, ptr):
+        self.fields, self.pad, self.pad_at, self.fam, self.ptr = fields, pad, pad_at, fam, ptr
+
+
+class Named:
+    """a value of an instance of the harness's generic named struct type with methods"""
+    def __init__(self, idx, ptr, name, qty, tags, url, pid, inner):
+        self.idx, self.ptr, self.name, self.qty, self.tags, self.url, self.pid, self.inner = idx, ptr, name, qty, tags, url, pid, inner
+
+
+def gen_sof(rng, fam):
+    w = lambda: rng.choice(WORDS)
+    f = [(b"Name", w()), (b"Qty", rng.randint(0, 500)), (b"Tags", [w() for _ in range(rng.randint(0, 3))]),
+         (b"Last", w()), (b"Tail", b"end-" + w())]
+    if rng.random() < 0.4:
+        f.insert(3, (b"Inner", Sof([(b"Title", w()), (b"N", rng.randint(0, 9))], rng.choice([0, 7]), rng.randint(0, 2), 8 + fam, False)
+                     if rng.random() < 0.6 else {b"title": w()}))
+    if rng.random() < 0.2:
+        f.insert(1, (b"Badge", w()))
+    if rng.random() < 0.3:
+        f.insert(0, (b"Title", w()))
+    return Sof(f, rng.choice(PADS), rng.randint(0, len(f)), fam, rng.random() < 0.2)
+
+
+def data_go08(v):
+    """tmpl.data_go plus the struct tags of harness/c08data.go"""
+    if isinstance(v, Sof):
+        return {"t": "sof", "v": {"fields": [[hx(k), data_go08(x)] for k, x in v.fields], "pad": v.pad, "pad_at": v.pad_at,
+                                  "fam": v.fam, "ptr": v.ptr}}
+    if isinstance(v, Named):
+        return {"t": "named", "v": {"idx": v.idx, "ptr": v.ptr, "name": hx(v.name), "qty": v.qty, "tags": [hx(t) for t in v.tags],
+                                    "url": hx(v.url), "pid": hx(v.pid), "inner": None if v.inner is None else data_go08(v.inner)}}
+    if isinstance(v, list):
+        return {"t": "arr", "v": [data_go08(x) for x in v]}
+    if isinstance(v, dict):
+        return {"t": "map", "v": [[hx(k), data_go08(x)] for k, x in v.items()]}
+    return tmpl.data_go(v)
 
 
 CTX_KEYS = [b"k0", b"k1", b"k2", b"k3", b"none"]
@@ -217,6 +413,11 @@ def res_term(r):
     return b"(inr %d)" % CLASS_CODE.get(r["class"], 9)
 
 
+def flat(ds):
+    """the distinct results of one goroutine in one round (older observations: one result, not a list)"""
+    return ds if isinstance(ds, list) else [ds]
+
+
 def steps_needed(r):
     if r["class"] != "ok":
         return 1
@@ -231,59 +432,83 @@ class C08(Prop):
     prop_file = "Props/C08.v"
     coq_targets = ["Props/C08.vo", "Run/Judge_C08.vo"]
     needs_race = True
-    # one case = one engine and rounds x goroutines concurrent renders (quick: about 2 000 renders)
-    sizes = {"quick": 40, "thorough": 1200}
+    # one case = one engine and rounds x goroutines x repetitions concurrent renders (quick: about 11 000 renders)
+    sizes = {"quick": 56, "thorough": 800}
     shard = 8
     design_ref = "DESIGN.md section 6 C08, section 10"
-    rule = ("one case = one production-mode engine with 11 loaded templates (loops, mixins with blocks, variable "
+    rule = ("one case = one production-mode engine with 18 loaded templates (loops, mixins with blocks, variable "
             "mutation, array push/sort, $global, Math/JSON/Object, while/case/attributes, a data-dependent execution "
-            "error, and three templates ctx/* whose output depends on the CONTEXT of the render through the harness's "
-            "context-aware template functions who/cnum/cget/alive/Req.user/Req.plus supplied via Engine.FuncProvider), "
-            "1-8 distinct jobs (template, data, context: user, number, string table, sometimes already cancelled), "
-            "N in {2, 8, 32} goroutines released by a barrier, each call with its own freshly built data value and its "
-            "own context value, 2-5 rounds, harness built with -race. Two shapes: 'ctx' (about 45% of the cases): "
-            "overlapping renders of the SAME context-dependent template (sometimes 2-3 of them) that differ in their "
-            "context and partly in their data; 'mixed': all templates. Deliberate staggering (85% of the ctx cases, 60% "
-            "of the mixed ones; the rest is a free-running storm): every provider call (the engine is in the middle of "
-            "resolving a function), every call of a harness function and the moment between Render returning its "
-            "reader and the caller reading it is a stagger point at which the call, following a plan drawn from the "
-            "case, passes, yields, or is held until the OTHER renders have passed 1-13 further points (bounded by 2 ms; "
-            "released at once when nobody else is running), so renders really sit inside each other's function "
-            "resolution and unread results; coverage.distribution.stagger reports points/holds/released/timeouts and "
-            "the largest number of renders seen in flight at once. Every concurrent result is compared with the result "
-            "of the same (template, data, context) rendered alone before and after the storm; non-trivial = at least "
-            "two concurrent calls and every job rendered alone first; distinct by SHA-1 of the case. Small batches "
-            "(replay, shrinking candidates, final run of a shrunk witness) are attempted up to 40 times and the first "
-            "attempt that differs is the observation")
+            "error; three templates ctx/* whose output depends on the CONTEXT of the render through the harness's "
+            "context-aware template functions who/cnum/cget/alive/Req.user/Req.plus supplied via Engine.FuncProvider; "
+            "four templates opt/*, str/* that go through the engine's rarely used shared helpers: optional members of "
+            "list items and of a mixin's `attributes` that are mostly NOT there, members found only by name folding "
+            "(Name for name, userID for userid, URL for url), string helpers, number formatting, stripTags, parseInt; "
+            "three templates rec/* over STRUCT data), 1-8 distinct jobs (template, data, context: user, number, string "
+            "table, sometimes already cancelled), N in {2..32} goroutines released by a barrier, each call with its own "
+            "freshly built data value and its own context value, 2-6 rounds, harness built with -race. Struct data "
+            "(harness/c08data.go): values of reflect.StructOf types with 5-408 fields whose extra field is named after "
+            "a process-wide epoch, so every round (in warm and cold cases) the renders meet Go types that did not exist "
+            "before, all goroutines of the round sharing the round's types; and values (also behind pointers) of 48 "
+            "instances of a generic named type with methods, the instance shifted by the round. Four shapes: 'ctx' "
+            "(about 27%): overlapping renders of the SAME context-dependent template that differ in their context and "
+            "partly in their data; 'mixed' (23%): all templates; 'rare' (25%): 8-32 goroutines x 4-20 renders each per "
+            "round of the opt/*, str/* and rec/* templates (many renders at once inside the absent-member fallbacks and "
+            "helpers); 'cold' (25%, plus 15-25% of the other shapes): NO render precedes the storm in the storm's "
+            "process - the harness re-executes itself twice: one fresh process renders every job alone (the baseline "
+            "seq), another fresh process runs only the storm and the renders alone after it - so the first use of every "
+            "template, Go type (StructOf and named, a new one per round) and helper in that process is made by several "
+            "renders at once. Deliberate staggering (85% of ctx, 60% of mixed, 20-30% of rare/cold cases; the rest is a "
+            "free-running storm): every provider call, every call of a harness function and the moment between Render "
+            "returning its reader and the caller reading it is a stagger point at which the call, following a plan drawn "
+            "from the case, passes, yields, or is held until the OTHER renders have passed 1-13 further points (bounded "
+            "by 2 ms; released at once when nobody else is running); coverage.distribution.stagger reports "
+            "points/holds/released/timeouts and the largest number of renders in flight. Every concurrent result (per "
+            "goroutine: every DISTINCT result of its repetitions) is compared with the result of the same (template, "
+            "data, context) rendered alone - before the storm, or in the separate fresh process for cold cases - and "
+            "alone after the storm; any panic, differing output, race report or dead process is a violation; once the "
+            "race detector has reported, the case's storm is cut short. Non-trivial = at least two concurrent calls and "
+            "every job rendered alone; distinct by SHA-1 of the case. Small batches (replay, shrinking candidates, final "
+            "run of a shrunk witness) are attempted up to 40 times and the first attempt that differs is the observation")
     trusted = [
         "PARTIAL: absence of data races is the Go race detector's observation on the code executed by this run "
-        "(harness built with -race, GORACE log collected per case); it is not a theorem",
+        "(harness built with -race, GORACE log collected per case and per child process); it is not a theorem",
         "the theorems are about logical interference for step functions that satisfy the footprint discipline "
         "(view_preserved/view_determines, reads_only); that Engine.Render's memory accesses have these footprints "
         "is what the race detector and the output comparison observe",
         "the judge instantiates 'what one render does' with the result observed when the same (template, data, "
-        "context) was rendered alone on the same engine (replay machine, theorem C08_replay_model_is_sequential)",
+        "context) was rendered alone (replay machine, theorem C08_replay_model_is_sequential): on the same engine "
+        "before the storm, or - cold cases - on an equally built engine in a separate fresh process, where the struct "
+        "types differ from the storm's only in the name of one field that no template reads",
         "context-aware template functions: Models/Sched.v Part 2c models findFunction's bind-per-use (theorems "
-        "C08_context_functions_*); that the Go code binds per use and keeps nothing bound in shared state is observed "
-        "by the context storms, not proved about the Go source",
-        "the harness's own template functions and stagger points (harness/c08ctx.go) are trusted test code: they "
-        "answer only from the context they were bound to; their bookkeeping is mutex-protected and bounded in time",
+        "C08_context_functions_*); struct conversion and the absent-member fallbacks: Part 2d models Map.convert / "
+        "Map.Member deriving everything from the call's own value by pure helpers (theorems C08_member*); that the Go "
+        "code keeps nothing bound / cached / buffered in shared state is observed by the storms, not proved about the "
+        "Go source",
+        "the harness's own template functions and stagger points (harness/c08ctx.go), its struct types "
+        "(harness/c08data.go: reflect.StructOf, a generic named type with value-receiver methods that only read) and "
+        "its self re-execution for cold cases are trusted test code",
         "Go scheduler: the interleavings that occur are whatever the runtime produces on this machine, steered by the "
-        "stagger plans; the schedule under which the model runs is drawn by the generator (the theorems hold for "
-        "every schedule)",
+        "barrier, the stagger plans and the repetitions; the schedule under which the model runs is drawn by the "
+        "generator (the theorems hold for every schedule)",
     ]
     assumptions = [
         "data-race freedom of Go memory is observed (race detector on executed code), not proved",
         "claim restricted to loaded templates in production mode (Engine.Debug = false); debug mode reloads on "
         "every Render (C08_debug_mode_reads_only_refuted) and is reported as an observation only",
         "sync.RWMutex provides mutual exclusion as modelled in Models/Sched.v Part 3 (trusted Go runtime)",
-        "template functions supplied by the application are themselves free of cross-call state; the harness's are",
+        "template functions supplied by the application, and the methods of the application's data types, are "
+        "themselves free of cross-call state; the harness's are",
         "an already cancelled context is only used without a rate limit (with one, Render's select between the "
         "semaphore and ctx.Done() is a scheduler coin toss, which is not what C08 compares)",
+        "first use: what is cold in a cold case is the storm's PROCESS (package-level state of pugjs and of the "
+        "libraries below it, Go types, the engine's templates); the operating system's caches are not",
     ]
     not_yet_proved = [
-        "the correspondence for context-aware functions is by output comparison only: the judge does not run the "
-        "Part 2c machine (cstep) on the harness's cases, and no statement about the Go source of findFunction is proved",
+        "the correspondence for context-aware functions and for struct conversion / absent members is by output "
+        "comparison only: the judge does not run the Part 2c machine (cstep) or the Part 2d machine (mstep) on the "
+        "harness's cases, and no statement about the Go source of findFunction, Map.convert or Map.Member is proved",
+        "Part 2d's strings.Title / lowerFirst / upperFirst are modelled on ASCII only, and the shared-caser variant "
+        "has one point of interference per lookup where the real helper would have two",
     ]
 
     # ---------------------------------------------------------------- generation
@@ -293,7 +518,11 @@ class C08(Prop):
             ratelimit = rng.choice([0, 0, 0, 8, 2])
             kind = rng.random()
             jobs = []
-            if kind < 0.45:
+            reps = 1
+            cold = False
+            job = lambda t, k, d=None: {"tpl": hx(t), "data": data_go08(gen_data(rng, t) if d is None else d),
+                                        "ctx": gen_ctx(rng, ratelimit, k)}
+            if kind < 0.27:
                 # CONTEXT STORM: overlapping renders of one context-dependent template (sometimes two or three)
                 # that differ in their context (and sometimes in their data)
                 shape = "ctx"
@@ -302,9 +531,9 @@ class C08(Prop):
                 base = {t: gen_data(rng, t) for t in tpls}
                 for k in range(njobs):
                     t = tpls[k % len(tpls)]
-                    d = base[t] if rng.random() < 0.5 else gen_data(rng, t)   # same data, other context
-                    jobs.append({"tpl": hx(t), "data": tmpl.data_go(d), "ctx": gen_ctx(rng, ratelimit, k)})
-            else:
+                    jobs.append(job(t, k, base[t] if rng.random() < 0.5 else None))   # same data, other context
+                cold = rng.random() < 0.15
+            elif kind < 0.50:
                 # MIXED STORM: all templates, context-dependent or not
                 shape = "mixed"
                 njobs = rng.choice([1, 2, 3, 4, 6, 8])
@@ -316,27 +545,52 @@ class C08(Prop):
                         t = "fail"
                     else:
                         t = rng.choice([x for x in TNAMES if x != "fail"])
-                    jobs.append({"tpl": hx(t), "data": tmpl.data_go(gen_data(rng, t)),
-                                 "ctx": gen_ctx(rng, ratelimit, k)})
-            ngo = rng.choice([2, 2, 8, 8, 8, 32, 32])
+                    jobs.append(job(t, k))
+                cold = rng.random() < 0.2
+            elif kind < 0.75:
+                # RARE-HELPER STORM: many goroutines x many renders of templates that read members which are not
+                # there (optional members, name folding), use string helpers and number formatting; struct data too
+                shape = "rare"
+                njobs = rng.choice([1, 2, 3, 4, 6])
+                pool = RARE_TNAMES * 3 + REC_TNAMES
+                jobs = [job(rng.choice(pool), k) for k in range(njobs)]
+                reps = rng.choice([4, 8, 12, 20])
+                cold = rng.random() < 0.25
+            else:
+                # COLD STORM: nothing is rendered before the storm in the storm's process; struct data, so that every
+                # round the renders meet Go types (and, in round 0, templates) that nobody has used yet
+                shape = "cold"
+                cold = True
+                njobs = rng.choice([1, 1, 2, 2, 3, 4])
+                pool = REC_TNAMES * 4 + RARE_TNAMES + [x for x in TNAMES if x != "fail"]
+                jobs = [job(rng.choice(pool), k) for k in range(njobs)]
+                reps = rng.choice([1, 1, 2, 3])
+            if shape == "rare":
+                ngo = rng.choice([8, 16, 32, 32])
+            elif shape == "cold":
+                ngo = rng.choice([4, 8, 8, 16, 32])
+            else:
+                ngo = rng.choice([2, 2, 8, 8, 8, 32, 32])
             mode = rng.random()
-            if mode < 0.2 and shape == "mixed":
+            if mode < 0.2 and shape == "mixed" or mode < 0.4 and shape == "cold":
                 calls = [rng.randrange(njobs)] * ngo          # everybody renders the same job
             else:
                 calls = [rng.randrange(njobs) for _ in range(ngo)]
                 if shape == "ctx":                            # at least two different contexts meet
                     calls[0], calls[1] = 0, 1
             # deliberate staggering inside the harness's template functions (0 = none: free-running storm)
-            stagger = 0 if rng.random() < (0.15 if shape == "ctx" else 0.4) else rng.randrange(1, 1 << 40)
-            cases.append({"files": FILES, "jobs": jobs, "calls": calls, "rounds": rng.randint(2, 5),
+            free = {"ctx": 0.15, "mixed": 0.4, "rare": 0.8, "cold": 0.7}[shape]
+            stagger = 0 if rng.random() < free else rng.randrange(1, 1 << 40)
+            rounds = rng.randint(3, 6) if shape == "cold" else rng.randint(2, 3) if shape == "rare" else rng.randint(2, 5)
+            cases.append({"files": FILES, "jobs": jobs, "calls": calls, "rounds": rounds,
                           "debug": False, "ratelimit": ratelimit, "stagger": stagger, "shape": shape,
-                          "sseed": rng.randrange(1 << 30)})
+                          "reps": reps, "cold": cold, "sseed": rng.randrange(1 << 30)})
         return cases
 
     # ---------------------------------------------------------------- running (race detector log, crash isolation)
     def _run_batch(self, binary, cases, tmp, tag):
         prefix = os.path.join(tmp, "race_%s_%d" % (tag, self._seq()))
-        env = dict(os.environ, GORACE="halt_on_error=0 exitcode=0 log_path=%s" % prefix, PV_RACE_LOG=prefix,
+        env = dict(os.environ, GORACE="halt_on_error=0 exitcode=0 atexit_sleep_ms=0 log_path=%s" % prefix, PV_RACE_LOG=prefix,
                    TMPDIR=tmp)   # the harness's scratch engines die with the check's directory even if it crashes
         slim = [{k: v for k, v in c.items() if k not in ("sseed", "shape")} for c in cases]
         p = subprocess.run([binary, self.engine], input=json.dumps(slim).encode(), capture_output=True,
@@ -399,10 +653,16 @@ class C08(Prop):
         seq = obs.get("seq") or []
         rounds = []
         for ri, conc in enumerate(obs.get("conc") or []):
-            calls = case["calls"]
+            # one model call per goroutine and DISTINCT result it got in the round (its repetitions that returned
+            # the same bytes are one call of the model; a correct engine gives exactly one per goroutine)
+            calls, results = [], []
+            for j, ds in zip(case["calls"], conc):
+                for x in flat(ds):
+                    calls.append(j)
+                    results.append(x)
             sched = []
             for g, j in enumerate(calls):
-                sched += [g] * (steps_needed(seq[j]) + 1)
+                sched += [g] * (steps_needed(seq[j]) + 1 if j < len(seq) else 2)
             r = _random.Random(case.get("sseed", 0) * 7 + ri)
             style = r.random()
             if style < 0.7:
@@ -410,7 +670,7 @@ class C08(Prop):
             elif style < 0.85:
                 sched.sort(key=lambda g: -g)          # one render at a time, last call first
             # else: one render at a time, in call order
-            rounds.append(b"{| calls := " + cq_list([cq_pair(cq_nat(j), res_term(x)) for j, x in zip(calls, conc)]) +
+            rounds.append(b"{| calls := " + cq_list([cq_pair(cq_nat(j), res_term(x)) for j, x in zip(calls, results)]) +
                           b"; sched := " + cq_list([cq_nat(g) for g in sched]) + b" |}")
         return (b"{| seq := " + cq_list([res_term(x) for x in seq]) +
                 b"; seq_after := " + cq_list([res_term(x) for x in (obs.get("seq_after") or [])]) +
@@ -428,6 +688,7 @@ class C08(Prop):
     def sample(self, case, obs):
         return {"goroutines": len(case["calls"]), "rounds": case["rounds"], "ratelimit": case["ratelimit"],
                 "shape": case.get("shape", "corpus"), "staggered": bool(case.get("stagger")),
+                "cold": bool(case.get("cold")), "renders_per_goroutine_and_round": max(1, case.get("reps", 1)),
                 "stagger": obs.get("stagger"),
                 "jobs": [unhx(j["tpl"]).decode() for j in case["jobs"]], "calls": case["calls"][:16],
                 "contexts": [{"user": unhx(j["ctx"]["user"]).decode("utf-8", "replace"), "num": j["ctx"]["num"],
@@ -443,7 +704,10 @@ class C08(Prop):
              "race_reports": 0, "crashed": 0, "go_unequal_cases": 0, "ratelimit": {}, "race_build": True, "gomaxprocs": 0,
              "shapes": {}, "staggered_cases": 0, "context_dependent_renders": 0, "cancelled_context_renders": 0,
              "rounds_with_same_template_under_different_contexts": 0,
-             "stagger": {"points": 0, "holds": 0, "released": 0, "timeouts": 0, "max_inside": 0}}
+             "stagger": {"points": 0, "holds": 0, "released": 0, "timeouts": 0, "max_inside": 0},
+             "renders_per_goroutine_and_round": {}, "cold_cases": 0, "cold_concurrent_renders": 0,
+             "cold_first_rounds_renders": 0, "rounds_with_struct_types_new_to_the_process": 0,
+             "renders_of_struct_data": 0, "renders_through_rare_helpers": 0, "largest_struct_fields": 0}
         for c, o in zip(cases, obss):
             sh = c.get("shape", "corpus")
             d["shapes"][sh] = d["shapes"].get(sh, 0) + 1
@@ -465,8 +729,27 @@ class C08(Prop):
             d["stagger"]["max_inside"] = max(d["stagger"]["max_inside"], st.get("max_inside", 0))
             n = str(len(c["calls"]))
             d["goroutines"][n] = d["goroutines"].get(n, 0) + 1
-            d["concurrent_renders"] += len(c["calls"]) * len(o.get("conc") or [])
+            nconc = sum(x.get("n", 1) for conc in (o.get("conc") or []) for ds in conc for x in flat(ds))
+            d["concurrent_renders"] += nconc
             d["sequential_renders"] += 2 * len(c["jobs"])
+            reps = max(1, c.get("reps", 1))
+            d["renders_per_goroutine_and_round"][str(reps)] = d["renders_per_goroutine_and_round"].get(str(reps), 0) + 1
+            if c.get("cold"):
+                d["cold_cases"] += 1
+                d["cold_concurrent_renders"] += nconc
+                d["cold_first_rounds_renders"] += sum(x.get("n", 1) for ds in ((o.get("conc") or [[]])[0]) for x in flat(ds))
+            st_types = sum(json.dumps(c["jobs"][g]["data"]).count('"sof"') + json.dumps(c["jobs"][g]["data"]).count('"named"') > 0
+                           for g in c["calls"])
+            if st_types:
+                d["rounds_with_struct_types_new_to_the_process"] += nr
+                d["renders_of_struct_data"] += st_types * nr * reps
+            for g in c["calls"]:
+                tn = unhx(c["jobs"][g]["tpl"]).decode()
+                if tn in RARE_TNAMES:
+                    d["renders_through_rare_helpers"] += nr * reps
+            pads = [int(x) for j in c["jobs"] for x in __import__("re").findall(r'"pad": (\d+)', json.dumps(j["data"]))]
+            if pads:
+                d["largest_struct_fields"] = max(d["largest_struct_fields"], max(pads) + 8)
             for g in c["calls"]:
                 t = unhx(c["jobs"][g]["tpl"]).decode()
                 d["templates"][t] = d["templates"].get(t, 0) + c["rounds"]
@@ -488,6 +771,9 @@ class C08(Prop):
             # a free-running storm: first try the same case with deliberate staggering, which makes the
             # overlaps (and so the witness) far more repeatable
             yield dict(case, stagger=(case.get("sseed", 0) << 8) | 1)
+        if case.get("reps", 1) > 1:
+            yield dict(case, reps=1)
+            yield dict(case, reps=case["reps"] // 2)
         if case["rounds"] > 1:
             yield dict(case, rounds=1)
             yield dict(case, rounds=case["rounds"] - 1)
@@ -511,7 +797,8 @@ class C08(Prop):
         cases = self.generate(rng, n, tier)
         for c in cases:
             c["debug"] = True
-            c["jobs"] = [j for j in c["jobs"]]
+            c["reps"] = 1        # every debug-mode render reloads the templates
+            c["cold"] = False
         obs = {"cases": 0, "concurrent_renders": 0, "unequal_renders": 0, "race_reports": 0, "crashed": 0,
                "first_race_report": None, "unequal_classes": {}}
         try:
@@ -526,13 +813,14 @@ class C08(Prop):
             if o.get("race_report") and not obs["first_race_report"]:
                 obs["first_race_report"] = o["race_report"][:2500]
             for conc in (o.get("conc") or []):
-                for g, r in zip(c["calls"], conc):
-                    obs["concurrent_renders"] += 1
-                    s = o["seq"][g]
-                    if r["class"] != s["class"] or r["out"] != s["out"]:
-                        obs["unequal_renders"] += 1
-                        k = "%s->%s" % (s["class"], r["class"])
-                        obs["unequal_classes"][k] = obs["unequal_classes"].get(k, 0) + 1
+                for g, ds in zip(c["calls"], conc):
+                    for r in flat(ds):
+                        obs["concurrent_renders"] += r.get("n", 1)
+                        s = o["seq"][g]
+                        if r["class"] != s["class"] or r["out"] != s["out"]:
+                            obs["unequal_renders"] += r.get("n", 1)
+                            k = "%s->%s" % (s["class"], r["class"])
+                            obs["unequal_classes"][k] = obs["unequal_classes"].get(k, 0) + 1
         obs["note"] = ("debug mode (Engine.Debug = true) reloads templates on every Render; outside C08's claim "
                        "(see C10); reported, never judged")
         ev["coverage"]["debug_mode_observation"] = obs
